@@ -43,7 +43,7 @@ def gen_cip(rng):
             return ('writef', ('sym', 'T', rng.choice([None, 1])), 200, 3, 0, [('i', 7), ('i', rng.choice([8, 2 ** 31 - 1])), ('i', rng.choice([2 ** 32 - 1, 2 ** 31, 9]))])
         return ('write', ('sym', 'S', 0), 199, 2, [('i', rng.choice([5, 32767])), ('i', rng.choice([65535, 32768, 6]))])
     if k < 0.70:
-        return ('read', ('sym', rng.choice(['nosuch', 'Tx']), rng.choice([None, None, 3])), 1)            # unknown tag (also with an element index): CIP status 0x05 expected
+        return ('read', ('sym', rng.choice(['nosuch', 'Tx', 'Tx', '\xb5m', 'K\xb5', 'stra\xdfe', '\xff\xe9']), rng.choice([None, None, 3])), 1)            # unknown tag (also with an element index): CIP status 0x05 expected
     if k < 0.715:
         # a supported service addressed, by a single request, to an object that does not exist: unroutable - one frame with a non-zero
         # encapsulation status, and the session ends (inside a bundle the Message Router answers it: next branch)
@@ -392,7 +392,7 @@ def run(ctx):
                     if body:
                         why = 'non-zero encapsulation status with a payload'; break
                     r = q[2]
-                    unknown = lambda x: x[0] == 'read' and x[1][0] == 'sym' and x[1][1] in ('nosuch', 'Tx')
+                    unknown = lambda x: x[0] == 'read' and x[1][0] == 'sym' and x[1][1] in ('nosuch', 'Tx', '\xb5m', 'K\xb5', 'stra\xdfe', '\xff\xe9')
                     if noobj(r) and routed_ok(cfg, q[1]):
                         continue                                   # unroutable: the object does not exist
                     if routed_ok(cfg, q[1]):
